@@ -131,6 +131,20 @@ Proof. intros H. pose proof (count_ge_antitone cum f1 f2 H) as Hc.
   destruct (Z.gtb_spec (npre - Z.of_nat c1 + 1) npre); destruct (Z.gtb_spec (npre - Z.of_nat c2 + 1) npre); cbn [fst snd];
   repeat split; intros; try lia; try reflexivity; try discriminate. Qed.
 
+(* whatever the cumulative fractions are (negative entries from rounding, unsorted), the number
+   of modes kept is a valid one: between 1 and the number of precomputed modes *)
+Lemma count_ge_le_length (l : list R) x : (count_ge OR l x <= length l)%nat.
+Proof. unfold count_ge. induction l as [|c r IH]; [apply le_n|]. cbn [filter fleb OR] in *.
+  destruct (Rleb x c); cbn [length]; lia. Qed.
+
+Lemma threshold_in_range (cum : list R) (frac : R) : (1 <= length cum)%nat ->
+  let k := Z.of_nat (length cum) in
+  (1 <= fst (dec_n_modes_clipped OR k cum frac) <= k)%Z /\ (1 <= fst (svd_n_modes_clipped OR k cum frac) <= k)%Z.
+Proof. intros Hk k. pose proof (count_ge_le_length cum frac) as Hc.
+  unfold dec_n_modes_clipped, dec_n_modes_required, svd_n_modes_clipped, svd_n_modes_required.
+  set (c := count_ge OR cum frac) in *. subst k.
+  destruct (Z.gtb_spec (Z.of_nat (length cum) - Z.of_nat c + 1) (Z.of_nat (length cum))); cbn [fst]; lia. Qed.
+
 (* refuted variant: counting the cumulative fractions that *exceed* the request (strict
    comparison) keeps one mode too many when the request is met exactly *)
 Definition n_modes_required_strict (npre : Z) (cum : list R) (frac : R) : Z :=
